@@ -181,13 +181,15 @@ Proof. vm_compute. reflexivity. Qed.
 
 (* single injected failure: RemoveNode's plugin removal fails after the store record is gone *)
 Theorem refuted_removenode_fault :
-  quiescent_bad W2 [(ORemoveNode "n", Some 3)] [0; 0; 0; 0; 0; 0; 0; 0].
+  quiescent_bad W2 [(ORemoveNode "n", Some 4)] [0; 0; 0; 0; 0; 0; 0; 0; 0].
 Proof. vm_compute. repeat split. Qed.
 
-(* a three-operation race found by exploring triples: RemoveNode fetches the node
-   BEFORE taking the pod lock; a second RemoveNode that fetched the old record
-   removes the plugin record a concurrent re-AddNode has just created *)
-Theorem refuted_stale_removenode :
-  quiescent_bad W2 [(OAddNode "n" "p", None); (ORemoveNode "n", None); (ORemoveNode "n", None)]
-                [2; 1; 1; 1; 1; 1; 1; 0; 2; 2; 2; 2; 2; 0; 0].
-Proof. vm_compute. repeat split. Qed.
+(* the three-operation race found by exploring triples (a RemoveNode acting on
+   the record it fetched BEFORE taking the pod lock removed the plugin record of
+   a concurrently re-added node) is closed by the repair: the same schedule now
+   ends in a consistent world *)
+Example stale_removenode_closed :
+  let '(w', ts', _) := run_sched W2 (mk_threads [(OAddNode "n" "p", None); (ORemoveNode "n", None); (ORemoveNode "n", None)])
+                         [2; 1; 1; 1; 1; 1; 1; 1; 0; 2; 2; 2; 2; 2; 0; 0] [] in
+  forallb finished ts' = true /\ ref_ok w' = true.
+Proof. vm_compute. split; reflexivity. Qed.
